@@ -281,6 +281,22 @@ def chunks (sz : Nat) : Nat → List Bool → List (List Bool)
   | 0, _ => []
   | n + 1, bs => bs.take sz :: chunks sz n (bs.drop sz)
 
+/-- `==` / `!=` on operands of an aggregate type: all wires are compared (`ra`: the compiled left operand, `rb`: the
+right operand compiled from the variables the left one left) -/
+def aggEq (op : Src.BinOp) (ty : Ty) (ra : Option (VTy × List Bool × P × BEnv))
+    (rb : BEnv → Option (VTy × List Bool × P × BEnv)) : Option (VTy × List Bool × P × BEnv) :=
+  if op = .eq ∨ op = .ne then
+    match ra with
+    | some (.agg ta, x, p1, env1) =>
+      match rb env1 with
+      | some (.agg tb, y, p2, env2) =>
+        if ta = ty ∧ tb = ty then
+          some (.s .bool, [if op = .eq then Arith.eqBits x y else !Arith.eqBits x y], seqP p1 p2, env2)
+        else none
+      | _ => none
+    | _ => none
+  else none
+
 /-- an unrolled loop: `f` compiles the body for one element from the variables the previous iteration left; the
 first panic wins, the bindings of an iteration end with it -/
 def foldLoop (f : List Bool → BEnv → Option (P × BEnv)) : List (List Bool) → P × BEnv → Option (P × BEnv)
@@ -388,7 +404,7 @@ def bitExpr (call : Ctx) (benv : BEnv) : Expr → Option (VTy × List Bool × P 
     | none, some (neg, n, k) => litMul neg n k ty (bitExpr call benv a)
     | none, none =>
     match STy.ofTy ty with
-    | none => none
+    | none => aggEq op ty (bitExpr call benv a) (fun env1 => bitExpr call env1 b)
     | some t =>
       match bitExpr call benv a with
       | some (.s ta, x, p1, env1) =>
@@ -492,17 +508,19 @@ def bitExpr (call : Ctx) (benv : BEnv) : Expr → Option (VTy × List Bool × P 
       some (.agg (.array (.int k) (hi - lo)),
         ((List.range (hi - lo)).map fun j => intToBits ((lo + j : Nat) : Int) k.bits).flatten, none, benv)
     else none
-  /- `a[i]`: array, then index (a `usize`), then the bounds check. In bounds the result is the element's wires
-  (value-level abstraction of the mux tree of `ExprEnum::ArrayAccess`); out of bounds the access panics and the
-  wires are not looked at any more (zeros here). -/
+  /- `a[i]`: array, then index (a `usize`), then the mux tree over the elements (`Arith.indexMux`: one layer per index
+  bit, what is left is one element) and the bounds check: an unsigned comparator of the index against the length.
+  (Arrays of 2^32 elements or more are outside the model.) -/
   | .index a i =>
     match bitExpr call benv a with
     | some (.agg (.array te n), abits, pa, env1) =>
       match bitExpr call env1 i with
       | some (.s (.int .usize), ibits, pi, env2) =>
-        let idx := bitsToNat ibits
-        some (VTy.ofTy te, (if idx < n then (abits.drop (idx * te.size)).take te.size else List.replicate te.size false),
-          seqP pa (seqP pi (if idx < n then none else some .outOfBounds)), env2)
+        if n < 2 ^ ibits.length then
+          let sel := Arith.selected te.size (Arith.indexMux ibits (chunks te.size n abits))
+          let inBounds := (Arith.comparator ibits false (natToBits n ibits.length) false).1
+          some (VTy.ofTy te, sel, seqP pa (seqP pi (if inBounds then none else some .outOfBounds)), env2)
+        else none
       | _ => none
     | _ => none
   /- `match` with arms that cover the type of the scrutinee: every arm is compiled from the state after the scrutinee; value,
@@ -676,7 +694,7 @@ def bitStmt (call : Ctx) (benv : BEnv) : Stmt → Option (VTy × List Bool × P 
     | _ => none
   | _ => none
 /-- the wires `cur` of a value of type `t` with the component at the end of the path replaced by `vb` (of type `vt`);
-an index out of bounds leaves the wires as they are and panics -/
+an index out of bounds panics (and no mux chain takes the new wires) -/
 def bitUpd (call : Ctx) (benv : BEnv) (t : Ty) (cur : List Bool) (vt : VTy) (vb : List Bool) :
     Path → Option (List Bool × P × BEnv)
   | .nil => if VTy.ofTy t = vt then some (vb, none, benv) else none
@@ -695,13 +713,18 @@ def bitUpd (call : Ctx) (benv : BEnv) (t : Ty) (cur : List Bool) (vt : VTy) (vb 
     | .array te n =>
       match bitExpr call benv ie with
       | some (.s (.int .usize), ibits, pi, env1) =>
-        let idx := bitsToNat ibits
-        let off := (if idx < n then idx else 0) * te.size
-        match bitUpd call env1 te ((cur.drop off).take te.size) vt vb rest with
-        | some (sub, p, env2) =>
-          some (if idx < n then cur.take off ++ sub ++ cur.drop (off + te.size) else cur,
-            seqP pi (seqP (if idx < n then none else some .outOfBounds) p), env2)
-        | none => none
+        if n < 2 ^ ibits.length then
+          /- the element is read through the mux tree, updated, and every element is rewritten through its mux
+          chain (`Arith.writeAll`: only the element whose number the index spells takes the new wires) -/
+          let elems := chunks te.size n cur
+          let sel := Arith.selected te.size (Arith.indexMux ibits elems)
+          let inBounds := (Arith.comparator ibits false (natToBits n ibits.length) false).1
+          match bitUpd call env1 te sel vt vb rest with
+          | some (sub, p, env2) =>
+            some ((Arith.writeAll ibits sub 0 elems).flatten,
+              seqP pi (seqP (if inBounds then none else some .outOfBounds) p), env2)
+          | none => none
+        else none
       | _ => none
     | _ => none
   | .fld f rest =>
